@@ -250,7 +250,7 @@ class Emitter:
         m = self.m
         with m.Switch(self.inp(n["test"])):
             for val, body in n["cases"]:
-                with m.Case(val):
+                with m.Case(*(val if isinstance(val, list) else [val])):
                     self.emit_list(body, din)
             if n.get("default") is not None:
                 with m.Default():
